@@ -58,7 +58,9 @@ THEOREMS = ["Ecdf.ge_ecdf_eq", "Ecdf.le_ecdf_eq", "Ecdf.ecdf_sum", "Ecdf.ge_anti
             # Properties/C09_Promote.lean: numpy's promotion table inside the model
             "Ecdf.resultType_comm", "Ecdf.resultType_idem", "Ecdf.resultType_lossy_iff", "Ecdf.np_int_dtype_pairs_exact",
             "Ecdf.np_int_sample_below_2p53_exact", "Ecdf.listSample_exact", "Ecdf.finding_list_straddling_2p63",
-            "Ecdf.np_ge_characterised", "Ecdf.np_le_characterised", "Ecdf.np_same_domain_no_indexError"]
+            "Ecdf.np_ge_characterised", "Ecdf.np_le_characterised", "Ecdf.np_same_domain_no_indexError",
+            # Properties/C09_Inf.lean: samples that contain -inf / +inf (order embedding)
+            "Ecdf.embed_le_iff", "Ecdf.inf_sample_counts", "Ecdf.inf_sample_code_eq"]
 TRUSTED = ["Lean 4.33 kernel", "axioms: propext, Classical.choice, Quot.sound at most",
            "numpy.sort returns the sorted permutation (modelled as List.mergeSort); numpy.searchsorted runs the binary-search loop "
            "of numpy/_core/src/npysort/binsearch.cpp for one key (modelled as Ecdf.bsearch; insertion point proved)",
@@ -81,6 +83,10 @@ RULE = ("exhaustive: every multiset of size 1..7 over two 6-letter alphabets (1.
         "functions, cdf= as the documented tuple, as a list, as Python lists, as (), binned_ecdf with list / tuple / array query "
         "points, +-inf queries of every float type (verdict); nan queries and the ecdf of another sample as cdf= (statistic: "
         "prediction of the statement-level model); "
+        "real-valued samples that CONTAIN -inf / +inf (ties at -inf, all-infinite samples, queries at +-inf and finite) through "
+        "get_quantiles and the three direct functions; aliasing: the arrays ecdf() / binned_ecdf() return are overwritten in "
+        "place by the caller (scale, zero, minus one, reverse sort), then lookups on the same sample, another sample of the "
+        "same length and one of another length must be unchanged; the caller's sample bit for bit unmodified after every lookup; "
         "a case is non-trivial when the sample has a tie or the query equals a sample value; distinct by (sample, query)")
 
 # Sub-classes of the dtype generators on which the UNCHANGED library violates the property: known findings D35 / D36 of
@@ -360,12 +366,20 @@ def _check_case(run, drv, pending, x, v, as_list, tag, layout=None):
         if doms is not None:
             k = drv.ask(f"ecdf_dt {doms[0]} {doms[1]} {xs_txt()}")
             pending.append(("np", case, k, observed, aw in KNOWN_FINDING_CLASSES))
+    snap = arg.tobytes() if isinstance(arg, numpy.ndarray) and n <= 5000 else (list(arg) if isinstance(arg, list) and n <= 64 else None)
     try:
         ge, le, q, gec, lec = _impl(arg, v)
     except Exception as e:  # the property promises a value for every non-empty sample
         run.oracle_failure(full(), f"exception {type(e).__name__}: {e}", signature=sig)
         ask_np(("exc", type(e).__name__))
         return
+    # the caller's sample is the caller's: bit for bit the same after the lookups (order included)
+    if snap is not None:
+        same = (arg.tobytes() == snap) if isinstance(arg, numpy.ndarray) else \
+            (len(arg) == len(snap) and all(type(a) is type(b) and a == b for a, b in zip(arg, snap)))
+        if not same:
+            run.oracle_failure(full(), "the lookups modified the caller's sample in place")
+            return
     # every output must be one real number (a deviation in type / shape is reported, never a harness crash)
     try:
         ge, le, gec, lec = (_scalar(o) for o in (ge, le, gec, lec))
@@ -518,6 +532,7 @@ def run(run, rng, tier):
     _flush(run, drv, pending)
     for name, gen in (("binned_ecdf", _binned), ("binned_ecdf over dtypes", _binned_dtypes), ("infinite queries", _infinite_queries),
                       ("large samples", _large_samples), ("sessions", _sessions), ("argument forms / code layer", _code_layer),
+                      ("samples with infinities", _infinite_samples), ("aliasing of returned arrays", _aliasing),
                       ("sup_dist", _sup_dist), ("min/max_or_none", _min_max)):
         _stage(run, name, lambda gen=gen: gen(run, rng, tier))
 
@@ -1213,6 +1228,182 @@ def _run_ecdf_arrays(run, case):
         run.oracle_failure(case, "ecdf(x) is not (sorted x, (1..n)/n)")
 
 
+# ----------------------------------------------------------------------------- samples that contain -inf / +inf
+def _xkey(t):
+    """exact order key of a float value that is not nan: (-1, 0) for -inf, (0, Fraction) finite, (1, 0) for +inf"""
+    f = float(t)
+    return (-1, 0) if f == -math.inf else ((1, 0) if f == math.inf else (0, Fraction(f)))
+
+
+def _run_inf_case(run, case, drv=None, pend=None):
+    """a real-valued sample with infinite entries (IEEE: the two extreme values of the order; -inf is an ordinary
+    log-likelihood statistic), looked up through get_quantiles and the three direct functions: exact counts in the
+    extended reals (Ecdf.inf_sample_code_eq)"""
+    from csep.utils import stats
+    dt = numpy.dtype(case["xdtype"])
+    vals = [float(t) for t in case["x"]]
+    arr = numpy.array(vals, dtype=dt)
+    x = arr.tolist() if case["as_list"] else arr
+    vt = case["vtype"]
+    v = float(case["v"]) if vt == "float" else numpy.dtype(vt.replace("@0d", "")).type(float(case["v"]))
+    if vt.endswith("@0d"):
+        v = numpy.asarray(v)
+    n = len(vals)
+    kx, kv = [_xkey(t) for t in vals], _xkey(float(case["v"]))
+    kge, kle = sum(1 for t in kx if t >= kv), sum(1 for t in kx if t <= kv)
+    snap = arr.tobytes()
+    call = case["call"]
+    try:
+        with numpy.errstate(all="ignore"):
+            if call == "quantiles":
+                got = stats.get_quantiles(x, v)
+            elif call == "separate":
+                got = (stats.greater_equal_ecdf(x, v), stats.less_equal_ecdf(x, v))
+            elif call == "cdf" and "ecdf" not in _MISSING:
+                cdf = stats.ecdf(x)
+                got = (stats.greater_equal_ecdf(x, v, cdf), stats.less_equal_ecdf(x, v, cdf=cdf))
+            elif call == "binned":
+                b = stats.binned_ecdf(x, [v])
+                got = (stats.get_quantiles(x, v)[0], b[1][0])
+            else:
+                got = stats.get_quantiles(sim_counts=x, obs_count=v)
+        got = (_scalar(got[0]), _scalar(got[1]))
+    except Exception as e:
+        run.oracle_failure(case, f"{call}: exception {type(e).__name__}: {e}")
+        return
+    if not _feq(got, (kge / n, kle / n)):
+        run.oracle_failure(case, f"{call} on a {dt.name} sample with infinite entries: (ge, le)={got!r}, expected ({kge}/{n}, {kle}/{n})")
+        return
+    if not case["as_list"] and arr.tobytes() != snap:
+        run.oracle_failure(case, "the lookups modified the caller's sample in place")
+        return
+    if drv is not None:
+        # the model sees the sample through the order embedding -inf -> lo, +inf -> hi (Ecdf.embed)
+        fin = [Fraction(t) for t in vals + [float(case["v"])] if math.isfinite(t)]
+        lo, hi = (min(fin) - 1, max(fin) + 1) if fin else (Fraction(-1), Fraction(1))
+        emb = lambda t: lo if t == -math.inf else (hi if t == math.inf else Fraction(t))
+        pend.append((case, drv.ask(f"ecdf_code {flist(emb(t) for t in vals)} {frac(emb(float(case['v'])))}"), got, True))
+
+
+def _infinite_samples(run, rng, tier):
+    drv, pend = Driver(), []
+    for _ in range(300 if tier == "quick" else 3000):
+        dt = numpy.dtype(rng.choice(["float64", "float64", "float32", "float16"]))
+        pool = rng.sample([-3.5, -1.25, 0.0, -0.0, 0.5, 2.0, 7.75, -96.0, 5e-324 if dt.name == "float64" else 0.25], rng.randint(1, 4))
+        n = rng.choice([1, 2, 3, 4, 7, 20])
+        p_lo, p_hi = rng.choice([(0.5, 0.0), (0.3, 0.3), (0.0, 0.4), (1.0, 0.0), (0.0, 1.0), (0.5, 0.5), (0.1, 0.0)])
+        vals = []
+        for _i in range(n):
+            r = rng.random()
+            vals.append(-math.inf if r < p_lo else (math.inf if r < p_lo + p_hi else rng.choice(pool)))
+        q = rng.choice([-math.inf, math.inf, rng.choice(vals), rng.choice(pool), rng.choice(pool) + 0.125, rng.choice(pool) - 0.125])
+        vt = rng.choice(["float", dt.name, "float64", dt.name + "@0d"])
+        case = dict(tag="inf-sample", xdtype=dt.name, x=[repr(float(t)) for t in vals], v=repr(float(q)), vtype=vt,
+                    as_list=rng.random() < 0.3, call=rng.choice(["quantiles", "quantiles", "separate", "cdf", "binned", "quantiles-kw"]))
+        run.case(case, ("inf", dt.name, tuple(case["x"]), case["v"], vt, case["call"]))
+        run.count("inf-sample:" + ("all-infinite" if all(math.isinf(t) for t in vals) else
+                                   ("with-infinities" if any(math.isinf(t) for t in vals) else "finite")))
+        _run_inf_case(run, case, drv, pend)
+    _flush_code(run, drv, pend, _code_stat(run))
+
+
+# ----------------------------------------------------------------------------- aliasing of RETURNED arrays
+def _run_alias_case(run, case):
+    """the arrays a public call returns belong to the caller: he may scale / zero / re-sort them in place; no later lookup
+    - on the same sample, on ANOTHER sample of the same length, on a sample of another length - may change"""
+    from csep.utils import stats
+    dt = numpy.dtype(case["xdtype"])
+    conv = (lambda t: int(Fraction(t))) if dt.kind in "iu" else (lambda t: float(Fraction(t)))
+    samples = [numpy.array([conv(t) for t in xs], dtype=dt) for xs in case["samples"]]
+    mut = case["mutation"]
+
+    def spoil(a):
+        """what a caller may do to an array he was handed (False: the array is read-only, nothing to spoil)"""
+        if not isinstance(a, numpy.ndarray) or not a.flags.writeable or a.size == 0:
+            return False
+        with numpy.errstate(all="ignore"):
+            if mut == "scale":
+                a *= 100
+            elif mut == "zero":
+                a[...] = 0
+            elif mut == "minus-one":
+                a -= 1
+            else:
+                a[::-1].sort()
+        return True
+
+    def lookups(k, where):
+        for i, (xs, arr) in enumerate(zip(case["samples"], samples)):
+            fx = [Fraction(t) for t in xs]
+            for vtxt in case["queries"]:
+                fv = Fraction(vtxt)
+                v = conv(vtxt)
+                n = len(fx)
+                want = (sum(1 for t in fx if t >= fv) / n, sum(1 for t in fx if t <= fv) / n)
+                try:
+                    how = case["lookup"]
+                    if how == "quantiles":
+                        got = stats.get_quantiles(arr, v)
+                    elif how == "separate":
+                        got = (stats.greater_equal_ecdf(arr, v), stats.less_equal_ecdf(arr, v))
+                    else:
+                        got = (stats.greater_equal_ecdf(arr, v), stats.binned_ecdf(arr, [v])[1][0])
+                    got = (_scalar(got[0]), _scalar(got[1]))
+                except Exception as e:
+                    run.oracle_failure(case, f"{where}: lookup on sample {i} raised {type(e).__name__}: {e}")
+                    return False
+                if not _feq(got, want):
+                    run.oracle_failure(case, f"{where}: lookup on sample {i} (length {n}) at {vtxt} gives {got!r}, expected {want!r}")
+                    return False
+        return True
+    if not lookups(0, "before anything was modified"):
+        return
+    for step, src in enumerate(case["sources"]):
+        arr = samples[src["sample"] % len(samples)]
+        try:
+            if src["api"] == "ecdf":
+                if "ecdf" in _MISSING:
+                    continue
+                ex, ey = stats.ecdf(arr)
+                spoiled = [spoil(ey), spoil(ex)]
+            else:
+                qv = numpy.array([conv(t) for t in case["queries"]], dtype=dt)
+                ret = stats.binned_ecdf(arr, qv)
+                spoiled = [spoil(ret[1])]
+        except Exception as e:
+            run.oracle_failure(case, f"step {step}: {src['api']} raised {type(e).__name__}: {e}")
+            return
+        run.count("aliasing:" + src["api"] + (":spoiled" if any(spoiled) else ":returned-read-only"))
+        # the sample handed in must not have been touched by spoiling what came back (numpy.sort returns a copy)
+        if [_exact(t) for t in arr.tolist()] != [int(Fraction(t)) if dt.kind in "iu" else Fraction(float(Fraction(t)))
+                                                   for t in case["samples"][src["sample"] % len(samples)]]:
+            run.oracle_failure(case, f"step {step}: modifying the arrays {src['api']}() returned changed the caller's sample")
+            return
+        if not lookups(step + 1, f"after the caller modified IN PLACE ({mut}) the arrays {src['api']}() returned for sample "
+                                 f"{src['sample'] % len(samples)}"):
+            return
+
+
+def _aliasing(run, rng, tier):
+    for _ in range(150 if tier == "quick" else 1500):
+        dt = numpy.dtype(rng.choice(["float64", "float64", "int64", "float32", "int32"]))
+        n = rng.choice([1, 2, 3, 5, 7, 16, 40])
+        pool = [rng.randrange(-6, 30) for _ in range(rng.randint(1, 6))] if dt.kind in "iu" else \
+            [rng.choice([0.5, 1.25, -2.0, 3.75, 0.0, 7.5]) + rng.randrange(0, 4) for _ in range(rng.randint(1, 6))]
+        mk = lambda m: [str(Fraction(rng.choice(pool))) for _ in range(m)]
+        # the sample whose arrays get modified, ANOTHER sample of the same length, and one of another length
+        samples = [mk(n), mk(n), mk(n + rng.choice([1, 2, 5]))]
+        queries = sorted(set(str(Fraction(rng.choice(pool) + rng.choice([0, 0, 1, -1]))) for _ in range(3)), key=Fraction)
+        case = dict(tag="aliasing", xdtype=dt.name, samples=samples, queries=queries,
+                    mutation=rng.choice(["scale", "zero", "minus-one", "reverse-sort"]),
+                    lookup=rng.choice(["quantiles", "separate", "binned"]),
+                    sources=[dict(api=rng.choice(["ecdf", "ecdf", "binned"]), sample=rng.randrange(3)) for _ in range(rng.randint(1, 3))])
+        run.case(dict(tag="aliasing", xdtype=dt.name, n=n, mutation=case["mutation"], sources=[s_["api"] for s_ in case["sources"]]),
+                 ("alias", dt.name, tuple(map(tuple, samples)), tuple(queries), case["mutation"], case["lookup"],
+                  tuple((s_["api"], s_["sample"]) for s_ in case["sources"])))
+        _run_alias_case(run, case)
+
+
 # ----------------------------------------------------------------------------- sup_dist / sup_dist_na
 def _sup_dist(run, rng, tier):
     """sup_dist_na(d1, d2) = sup over the pooled sample of |F1 - F2| with F_i the "at most" probability of sample i
@@ -1351,6 +1542,14 @@ def replay(run, payload):
     if case.get("tag") == "session":
         run.case(case, None)
         return _run_session(run, case)
+    if case.get("tag") == "aliasing":
+        run.case(case, None)
+        return _run_alias_case(run, case)
+    if case.get("tag") == "inf-sample":
+        run.case(case, None)
+        drv, pend = Driver(), []
+        _run_inf_case(run, case, drv, pend)
+        return _flush_code(run, drv, pend, _code_stat(run))
     if case.get("tag") == "code-layer":
         run.case(case, None)
         drv, pend = Driver(), []
